@@ -11,16 +11,16 @@
 using namespace sim;
 
 enum { ST_RUNS, ST_OPS, ST_BACKEND_MSGS, F_NRPN_SPLIT, F_MIDI_UNBOUND, F_CLEAR_WHILE_WAITING, F_CLEAR_IDLE_WHILE_OTHERS_WAIT, F_OUT_OF_UNIT_RANGE, F_UNINIT_FILL,
-       P_LEARN_SERVED, P_LEARN_SERVED_AFTER_CLEAR, P_LEARN_NRPN, P_BOUND_CC_DRIVES, P_BOUND_NRPN_DRIVES, P_QUEUE3, P_NEG_GAIN, P_CLAMPED_OUT, P_LOG_PARAM, P_TOGGLE_PARAM, P_INT_PARAM, P_MONO_PAIR, P_SILENT_RELEARN, P_INCOMPLETE_NRPN_WHILE_WAITING, ST_N };
+       P_LEARN_SERVED, P_LEARN_SERVED_AFTER_CLEAR, P_LEARN_NRPN, P_BOUND_CC_DRIVES, P_BOUND_NRPN_DRIVES, P_QUEUE3, P_NEG_GAIN, P_CLAMPED_OUT, P_LOG_PARAM, P_TOGGLE_PARAM, P_INT_PARAM, P_MONO_PAIR, P_SILENT_RELEARN, P_INCOMPLETE_NRPN_WHILE_WAITING, P_LONG_ADDR, P_BIND_REFUSED, ST_N };
 static const char *STAT_NAMES[ST_N] = { "runs", "ops", "backend_messages", "fault.nrpn_sequence_split_by_other_events", "fault.midi_from_unbound_controller", "fault.clear_of_waiting_slot", "fault.clear_of_idle_slot_while_others_wait", "fault.slot_value_outside_0_1", "fault.manager_memory_prefilled_nonzero",
        "probe.learn_request_served", "probe.learn_served_after_intervening_clear", "probe.learn_bound_to_nrpn", "probe.bound_cc_drives_slot", "probe.bound_nrpn_drives_slot", "probe.learn_queue_length_3", "probe.negative_gain", "probe.output_clamped_to_range",
-       "probe.log_scale_parameter_driven", "probe.toggle_parameter_driven", "probe.int_parameter_driven", "probe.monotonic_pair_checked", "probe.learn_request_on_bound_or_waiting_slot", "probe.incomplete_nrpn_while_slot_waits" };
+       "probe.log_scale_parameter_driven", "probe.toggle_parameter_driven", "probe.int_parameter_driven", "probe.monotonic_pair_checked", "probe.learn_request_on_bound_or_waiting_slot", "probe.incomplete_nrpn_while_slot_waits", "probe.address_of_128_or_more_characters_bound", "probe.binding_of_a_long_address_refused" };
 
 enum { K_SLOTS, K_PER, K_FILL, K_N };
 enum { UI_BIND = 0, UI_CLEAR, UI_CLEARSUB, UI_GAIN, UI_OFFSET, HOST_SET, HOST_PAIR, MIDI_CC, MIDI_NRPN };
 
-static const char *BINDABLE[] = {"/pi", "/pi_neg", "/pf", "/pf_log", "/pf_unit", "/pt", "/po_b", "/af1", "/sub/sf", "/subs1/si", "/psub/st", "/ai2", "/odd/vol"};
-static const int NBIND = 13;
+static const char *BINDABLE[] = {"/pi", "/pi_neg", "/pf", "/pf_log", "/pf_unit", "/pt", "/po_b", "/af1", "/sub/sf", "/subs1/si", "/psub/st", "/ai2", "/odd/vol", "/odd/pc_r", "/odd/cut_i", "/odd/pi_big", "/odd/pi_imax", "/odd/a_sub_tree_with_a_name_that_is_much_longer_than_anyone_would_type_by_hand_0123456789/a_parameter_with_a_name_that_is_just_as_unreasonably_long_as_its_parent_s"};
+static const int NBIND = 18;
 
 struct MSub { bool used = false; int leaf = -1; char type = 0; double mn = 0, mx = 0; bool log = false; float gain = 100, offset = 0; };
 struct MSlot { std::vector<MSub> subs; int cc = -1, nrpn = -1; };
@@ -115,11 +115,11 @@ struct AutoWorld : World {
                 out = s.type == 'f' ? (double)rtosc_argument(mm, 0).f : (double)rtosc_argument(mm, 0).i;
                 double tol = s.log ? 1e-5 * std::max(fabs(s.mn), fabs(s.mx)) : 0;
                 if (!(out >= s.mn - tol && out <= s.mx + tol)) { snprintf(b, sizeof b, "op %d: %s driven with %.9g outside its declared range [%g,%g] (slot value %g, gain %g, offset %g)", opi, mm, out, s.mn, s.mx, v, s.gain, s.offset); fail("RANGE", b); return false; }
-                if (s.type == 'i') stat_add(P_INT_PARAM); if (s.log) stat_add(P_LOG_PARAM);
+                if (s.type == 'i' || s.type == 'c') stat_add(P_INT_PARAM); if (s.log) stat_add(P_LOG_PARAM);
                 if (s.gain == 100 && s.offset == 0 && v >= 0 && v <= 1) {     // default mapping: linear 0..1 -> min..max
                     double e = s.log ? exp(log(s.mn) + v * (log(s.mx) - log(s.mn))) : s.mn + (double)v * (s.mx - s.mn);
                     bool ok;
-                    if (s.type == 'i') { double tolr = 1e-4 * (fabs(s.mx - s.mn) + 1); ok = out == (double)llround(e) || out == (double)llround(e - tolr) || out == (double)llround(e + tolr) || out == floor(e + 0.5 - tolr) || out == ceil(e - 0.5 + tolr); }
+                    if (s.type == 'i' || s.type == 'c') { double tolr = 1e-4 * (fabs(s.mx - s.mn) + 1); ok = fabs(out - e) <= 0.5 + tolr; }   // rounded to the nearest integer, computed in single precision
                     else if (s.log) ok = fabs(out - e) <= 1e-5 * fabs(e) + 1e-12;
                     else ok = fabs(out - e) <= 4e-7 * (fabs(s.mn) + fabs(s.mx) + fabs(e));
                     if (!ok) { snprintf(b, sizeof b, "op %d: %s at default gain/offset, slot value %.9g -> %.9g, linear map onto [%g,%g] gives %.9g", opi, mm, v, out, s.mn, s.mx, e); fail("LINEAR", b); return false; }
@@ -170,10 +170,13 @@ struct AutoWorld : World {
                 const char *path = BINDABLE[((op.a[1] % NBIND) + NBIND) % NBIND]; bool learn = op.a[2] & 1;
                 int free_sub = -1; for (int j = 0; j < per; j++) if (!ms[slot].subs[j].used) { free_sub = j; break; }
                 mgr->createBinding(slot, path, learn);
+                // an address the manager cannot hold may be refused whole (then nothing is bound and nothing may ever be sent for it)
+                if (free_sub >= 0 && strlen(path) >= 128 && !mgr->slots[slot].automations[free_sub].used) { stat_add(P_BIND_REFUSED); break; }
+                if (strlen(path) >= 128) stat_add(P_LONG_ADDR);
                 if (free_sub >= 0) {
                     MSub &s = ms[slot].subs[free_sub]; s.used = true; s.leaf = leaf_of(path); const app::Leaf &l = L[s.leaf];
-                    s.type = l.kind == app::K_PARAM_F ? 'f' : l.kind == app::K_TOGGLE ? 'T' : 'i';
-                    if (s.type == 'T') { s.mn = 0; s.mx = 1; } else { s.mn = (float)atof(l.mn); s.mx = (float)atof(l.mx); }
+                    s.type = l.kind == app::K_PARAM_F ? 'f' : l.kind == app::K_TOGGLE ? 'T' : l.kind == app::K_PARAM_C ? 'c' : 'i';
+                    if (s.type == 'T') { s.mn = 0; s.mx = 1; } else if (s.type == 'f') { s.mn = (float)atof(l.mn); s.mx = (float)atof(l.mx); } else { s.mn = atof(l.mn); s.mx = atof(l.mx); }   // integer bounds are exact (not every int is a float)
                     s.log = l.log_scale; s.gain = 100; s.offset = 0;
                     if (learn) {
                         bool waiting = std::find(fifo.begin(), fifo.end(), slot) != fifo.end(); bool bound = ms[slot].cc != -1 || ms[slot].nrpn != -1;
